@@ -19,8 +19,8 @@ from ..core import runner, snapshot, opwrap
 ID = 'C12'
 
 BOUNDS = {
-    'quick': dict(RUNS=[('small', 3)]),
-    'thorough': dict(RUNS=[('full', 3), ('small', 4)]),
+    'quick': dict(RUNS=[('small', 3), ('deep', 2)]),
+    'thorough': dict(RUNS=[('full', 3), ('small', 4), ('deep', 3)]),
 }
 
 RHS = ['h', 'h[0]', '[h, h]', '{"k": h}', 'y', '[1, [2]]', 'enumerate(h)', 'items(d)', 't', 'd', 'd["k"]',
@@ -31,7 +31,17 @@ RHS_SMALL = ['h', 'h[0]', '[h, h]', '{"k": h}', 'y', 'enumerate(h)', 'items(d)',
              'True and h', 'deepn']
 
 
+DEEPX = 1500        # nesting depth of the host list `deepx`: copying it exhausts the interpreter's recursion limit (2500 here)
+_ALPHA = ['small']
+
+
 def actions(alpha):
+    if alpha == 'deep':
+        # a value whose copy FAILS: the assignment must fail as a whole (or store an independent copy), never store a partial copy
+        acts = []
+        for e in ('deepx', '[deepx]', 'deepx[0]', 'h'):
+            acts += [f'x = {e}', f'x[0] = {e}', f'z["k"] = {e}', f'x += {e}', f'x[0] += {e}', f'y = {e}']
+        return acts + ['z = {}', 'x = [[0]]', 'x = []', 'push(x[0], 9)', 'y[0] = 7', 'push(z["k"], 9)']
     rhs = RHS if alpha == 'full' else RHS_SMALL
     acts = []
     for e in rhs:
@@ -67,7 +77,13 @@ def fresh_host():
     deepn = [D(0)]
     for _ in range(24):
         deepn = [deepn]
-    return {'h': h, 'd': d, 't': t, 'he': [], 'hd': {}, 'deepn': deepn}
+    out = {'h': h, 'd': d, 't': t, 'he': [], 'hd': {}, 'deepn': deepn}
+    if _ALPHA[0] == 'deep':
+        deepx = [D(0)]
+        for _ in range(DEEPX):
+            deepx = [deepx]
+        out['deepx'] = deepx
+    return out
 
 
 def reach(v, out, keep):
@@ -97,26 +113,57 @@ def reach_scopes(names_obj):
     return out, keep
 
 
+def _flat(v, memo, order):
+    """Iterative flat serialisation (no recursion: values may be nested thousands deep). memo None: contents only."""
+    out = []
+    stack = [v]
+    END = object()
+    onpath = set()
+    while stack:
+        x = stack.pop()
+        if isinstance(x, tuple) and len(x) == 3 and x[0] is END:
+            out.append(')')
+            onpath.discard(x[2])
+        elif isinstance(x, tuple) and len(x) == 2 and x[0] is END:
+            out.append('k:' + repr(x[1]))
+        elif isinstance(x, (list, dict)):
+            if id(x) in onpath:
+                out.append('cycle')
+                continue
+            onpath.add(id(x))
+            if memo is not None:
+                if id(x) in memo:
+                    out.append('ref%d' % memo[id(x)])
+                    onpath.discard(id(x))
+                    continue
+                order[0] += 1
+                memo[id(x)] = order[0]
+                out.append(('L%d(' if isinstance(x, list) else 'D%d(') % order[0])
+            else:
+                out.append('L(' if isinstance(x, list) else 'D(')
+            stack.append((END, None, id(x)))
+            if isinstance(x, list):
+                stack.extend(reversed(x))
+            else:
+                for k, y in reversed(list(x.items())):
+                    stack.append(y)
+                    stack.append((END, k))
+        elif isinstance(x, tuple):
+            out.append('T(')
+            stack.append((END, None, None))
+            stack.extend(reversed(x))
+        elif callable(x):
+            out.append('fn')
+        else:
+            out.append((type(x).__name__ if isinstance(x, bool) or x is None else 'n') + ':' + str(x))
+    return out
+
+
 def canon(v, memo=None, order=None):
     """Contents + aliasing: mutable objects are numbered by first visit."""
-    import sys
-    if sys.getrecursionlimit() < 5000:
-        sys.setrecursionlimit(5000)
     if memo is None:
         memo, order = {}, [0]
-    if isinstance(v, (list, dict)):
-        if id(v) in memo:
-            return ('ref', memo[id(v)])
-        order[0] += 1
-        n = memo[id(v)] = order[0]
-        if isinstance(v, list):
-            return ('L', n, [canon(x, memo, order) for x in v])
-        return ('D', n, [(k, canon(x, memo, order)) for k, x in v.items()])
-    if isinstance(v, tuple):
-        return ('T', [canon(x, memo, order) for x in v])
-    if callable(v):
-        return ('fn',)
-    return ('v', type(v).__name__ if isinstance(v, bool) or v is None else 'n', str(v))
+    return ' '.join(_flat(v, memo, order))
 
 
 def canon_names(names):
@@ -126,15 +173,7 @@ def canon_names(names):
 
 def plain(v):
     """Contents only (no alias numbering) for equality of values."""
-    if isinstance(v, list):
-        return ['L'] + [plain(x) for x in v]
-    if isinstance(v, dict):
-        return ['D'] + [(k, plain(x)) for k, x in v.items()]
-    if isinstance(v, tuple):
-        return ['T'] + [plain(x) for x in v]
-    if callable(v):
-        return 'fn'
-    return str(v)
+    return ' '.join(_flat(v, None, None))
 
 
 class Watch:
@@ -261,7 +300,7 @@ def run_history(res, history, mode):
     """Replay on fresh host objects; returns canonical state (or None if the last step failed)."""
     install_setitem_wrappers()
     names = fresh_host()
-    host0 = {k: names[k] for k in ('h', 'd', 't', 'he', 'hd', 'deepn')}
+    host0 = {k: names[k] for k in ('h', 'd', 't', 'he', 'hd', 'deepn', 'deepx') if k in names}
     host_expect = {k: plain(v) for k, v in host0.items()}
     w = Watch(res, history, mode)
     _watch[0] = w
@@ -334,6 +373,9 @@ def _mutates_host_directly(prog):
 def work(task):
     hists, alpha = task
     res = runner.Result()
+    import sys
+    _ALPHA[0] = alpha
+    sys.setrecursionlimit(2500 if alpha == 'deep' else 5000)
     acts = actions(alpha)
     for hist in hists:
         for a in acts:
@@ -408,6 +450,10 @@ def main(tier, seed, t0):
 def replay(w):
     res = runner.Result()
     opwrap.install()
+    import sys
+    deep = any('deepx' in st for st in w['history'])
+    _ALPHA[0] = 'deep' if deep else 'small'
+    sys.setrecursionlimit(2500 if deep else 5000)
     run_history(res, list(w['history']), w.get('mode', 'separate'))
     return ('REPRODUCED' if res.viol else 'HOLDS') + f"\n history={w['history']!r} mode={w.get('mode')}\n " + \
         repr({k: v[0] for k, v in res.viol.items()})
